@@ -13,6 +13,10 @@
  *   k S hex|NULL|-              rdsparser_parse_string; C string given as hex of its bytes
  *   k X v | k T text type err | k G text v | k U token | k R field id
  *   k V / k W     harness-level save / restore of the instance (memcpy of the object)
+ *   k Y id R field newid | k Y id U token
+ *                 re-entrancy: from now on, whenever a callback function of family <id> is invoked
+ *                 on instance k it calls rdsparser_register_<field>(newid) / rdsparser_set_user_data
+ *                 on its own parser from inside the callback (actions run in the order given)
  *   = name        start of a new script: all instances are dropped
  *   ? ...         twin-run assertion for the model driver; ignored here
  *
@@ -144,6 +148,13 @@ fmt_key(char *out, const rdsparser_t *rds, int k)
     }
 }
 
+/* re-entrant scripts: per instance and callback family, a list of registration / user-data calls */
+#define MAXRE 8
+typedef struct { int kind; int field; int id; long tok; } reent_t;
+static TLS reent_t reent[NINST][4][MAXRE];
+static TLS int nreent[NINST][4];
+static void do_register(rdsparser_t *r, int field, int id);
+
 static void
 add_event(rdsparser_t *rds, void *ud, int field, int id, const char *args, int sample_key)
 {
@@ -158,6 +169,16 @@ add_event(rdsparser_t *rds, void *ud, int field, int id, const char *args, int s
     {
         e[n++] = ' ';
         fmt_key(e + n, rds, sample_key);
+    }
+    int k = index_of(rds);
+    if (k >= 0 && id >= 1 && id <= 3)
+    {
+        for (int i = 0; i < nreent[k][id]; i++)
+        {
+            const reent_t *a = &reent[k][id][i];
+            if (a->kind == 'R') do_register(rds, a->field, a->id);
+            else rdsparser_set_user_data(rds, (void *)(intptr_t)a->tok);
+        }
     }
 }
 
@@ -245,6 +266,7 @@ drop_all(void)
         inst[i] = NULL;
         on_heap[i] = 0;
         for (int k = 0; k < NKEYS; k++) last[i][k][0] = '\0';
+        for (int k = 0; k < 4; k++) nreent[i][k] = 0;
     }
 }
 
@@ -432,6 +454,22 @@ run_script(const char *script, FILE *output, int full)
             int fld = 0, id = 0;
             sscanf(rest, "%d %d", &fld, &id);
             do_register(inst[k], fld, id);
+            break;
+        }
+        case 'Y':
+        {
+            int id = 0, a = 0, b = 0;
+            long tok = 0;
+            char kind = 0;
+            if (sscanf(rest, "%d %c", &id, &kind) != 2 || id < 1 || id > 3 || nreent[k][id] >= MAXRE)
+            {
+                fprintf(stderr, "harness: bad Y line: %s\n", line);
+                return 2;
+            }
+            reent_t *r = &reent[k][id][nreent[k][id]++];
+            r->kind = kind;
+            if (kind == 'R') { sscanf(rest, "%d %c %d %d", &id, &kind, &a, &b); r->field = a; r->id = b; }
+            else { sscanf(rest, "%d %c %ld", &id, &kind, &tok); r->tok = tok; }
             break;
         }
         case 'V':
